@@ -65,7 +65,7 @@ class Scenario:
     pre(v) -> list of boolean values (A/S or ndarray/bool): preconditions beyond the boxes
     """
 
-    def __init__(self, name, build, events=None, scalars=None, pre=None, axis="ev", strict=(), positive=(), integer=(), kinds=None):
+    def __init__(self, name, build, events=None, scalars=None, pre=None, axis="ev", strict=(), positive=(), integer=(), kinds=None, nonnegative=()):
         self.name = name
         self.build = build
         self.events = events or {}
@@ -74,6 +74,7 @@ class Scenario:
         self.axis_name = axis
         self.strict = set(strict)
         self.positive = set(positive)
+        self.nonnegative = set(nonnegative)
         self.integer = set(integer)
         self.kinds = kinds or {}
         self.axis = None
@@ -82,6 +83,8 @@ class Scenario:
         kw = {"real": True}
         if name in self.positive:
             kw["positive"] = True
+        elif name in self.nonnegative:
+            kw["nonnegative"] = True
         if name in self.integer:
             kw["integer"] = True
         return sp.Symbol(name, **kw)
@@ -701,7 +704,7 @@ class FunctionCheck:
                 if cp.kind != "return":
                     continue
                 try:
-                    if not all(te.eval(c) for c in cp.pc if not (c.free_symbols & self.sc.axis.syms if self.sc.axis else False)):
+                    if not all(te.eval(c) for c in cp.pc):
                         continue
                 except (ValueError, KeyError):
                     continue
